@@ -50,6 +50,14 @@ def generate(tier, rng):
             e.extra['shape'] = 'solo derives %s cis=%s' % ('+'.join(ds), cis)
             e.extra['no_twin'] = True
             enums.append(e)
+    # NO serialize_all: identifiers are used exactly as written, whatever their shape
+    for j, pfx in enumerate((None, 'x.')):
+        e = ESpec(id='c03asis%d' % j, name='EnC03asis%d' % j, style=None, prefix=pfx, derives=list(derives), feats=['names', 'vnames'])
+        e.variants = [VSpec(ident=i) for i in ('HTTPServer', 'legacy_name', 'Foo_Bar', 'lowerStart', '_Lead', 'Trail_', 'IOError', 'X9y', 'ALLCAPS', 'Plain')]
+        e.variants[2].kind, e.variants[2].ftypes = 'tuple', ['u8']
+        e.extra['shape'] = 'no style, identifiers as written'
+        e.extra['no_noise'] = True
+        enums.append(e)
     # the empty string is a name like any other
     for j, pfx in enumerate((None, 'p:')):
         e = ESpec(id='c03empty%d' % j, name='EnC03empty%d' % j, prefix=pfx, derives=list(derives), feats=['names', 'vnames'])
